@@ -33,9 +33,6 @@ VARIANTS = {
                       crypto="openssl", ld=ASAN),
     "botan-asan": dict(cxx="clang++", cflags="-O1 -g -fno-omit-frame-pointer %s" % ASAN,
                        crypto="botan", ld=ASAN),
-    "ossl-sched": dict(cxx="clang++",
-                       cflags="-O1 -g -fno-omit-frame-pointer -fsanitize=address -fsanitize-coverage=trace-pc-guard",
-                       crypto="openssl", ld="-fsanitize=address"),
     "ossl-plain": dict(cxx="g++", cflags="-O1 -g", crypto="openssl", ld=""),
 }
 
@@ -151,12 +148,10 @@ def gen_variant(name, guard):
                 s2 = "obj/native_fs_shim.o"
                 n.append("build %s: link %s %s %s\n  extra = -fsanitize=fuzzer %s" % (fz, o, s2, libobjs, wrapflags))
                 targets.append(fz)
-    if name == "ossl-sched":
         if os.path.exists(os.path.join(NATIVE, "p11sched.cpp")):
-            # the harness itself must not be instrumented with trace-pc-guard
-            o = "obj/native_p11sched.o"
-            n.append("build %s: cxx %s\n  extra = -fno-sanitize-coverage=trace-pc-guard" % (o, os.path.join(NATIVE, "p11sched.cpp")))
-            n.append("build p11sched: link %s %s" % (o, libobjs))
+            # C18: the executor's handlers driven by N threads under a harness-owned scheduler (mutex callbacks)
+            o = native_obj("p11sched.cpp")
+            n.append("build p11sched: link %s %s %s\n  extra = %s" % (o, "obj/native_fs_shim.o", libobjs, wrapflags))
             targets.append("p11sched")
     n.append("default %s" % " ".join(targets if targets else objs))
     write_if_changed(os.path.join(bdir, "build.ninja"), "\n".join(n) + "\n")
@@ -185,7 +180,7 @@ def main():
     args = [a for a in sys.argv[1:] if not a.startswith("--")]
     guard = "--guard" in sys.argv
     quiet = "--quiet" in sys.argv
-    names = args or ["ossl-asan", "botan-asan", "ossl-sched", "ref"]
+    names = args or ["ossl-asan", "botan-asan", "ref"]
     os.makedirs(BUILD, exist_ok=True)
     lock = open(os.path.join(BUILD, ".lock"), "w")
     fcntl.flock(lock, fcntl.LOCK_EX)
